@@ -7,7 +7,7 @@ from numpy import sqrt, exp, dot, cov
 from scipy.linalg import eigh
 
 from inference.mcmc.gibbs import MetropolisChain, Parameter
-from inference.mcmc.utilities import Bounds
+from inference.mcmc.utilities import Bounds, ChainProgressPrinter
 
 
 class PcaChain(MetropolisChain):
@@ -257,6 +257,10 @@ class PcaChain(MetropolisChain):
         chain.n_parameters = int(D["n_parameters"])
         chain.probs = list(D["probs"])
         chain.inv_temp = float(D["inv_temp"])
+        chain.display_progress = bool(D["display_progress"])
+        chain.ProgressPrinter = ChainProgressPrinter(
+            display=chain.display_progress, leading_msg="advancing chain:"
+        )
         chain.dir_update_interval = int(D["dir_update_interval"])
         chain.dir_growth_factor = float(D["dir_growth_factor"])
         chain.last_update = int(D["last_update"])
